@@ -32,7 +32,8 @@ from harness.yawenv import scratch
 
 def families(quick):
     F = {}
-    F["angular"] = sky.SkyConfig(nref=3, nunk=2, zcells="{2, 4}", weights="{1}", rmin=(2.5,), rmax=(12.5,))
+    F["angular"] = sky.SkyConfig(nref=3, nunk=2, zcells="{2, 4}", weights="{1}", rmin=(2.5,), rmax=(12.5,),
+                                 slots=("{0, 1, 3, 4, 6, 8, 9}" if quick else "0..9"))
     F["two_scales_weights"] = sky.SkyConfig(nref=2, nunk=2, zcells="{2, 4}", weights="{1, 2}", slots="{0, 1, 3, 4, 6, 8, 9}",
                                             rmin=(2.5, 7.5), rmax=(12.5, 17.5))
     # the widest scale is NOT the last one listed
@@ -42,8 +43,12 @@ def families(quick):
     # lowest bin centre below the 0.05 floor of get_max_angle
     F["low_redshift"] = sky.SkyConfig(nref=2, nunk=2, zcells="{2, 4}", weights="{1}", unit="Mpc", edges=(0.01, 0.03, 0.09), rmin=(2.0,), rmax=(26.0,),
                                       slots="0..11", centres=(2, 9))
-    F["three_centres"] = sky.SkyConfig(nref=3, nunk=3, zcells="{2}", weights="{1}", centres=(1, 5, 9), slots="{0, 1, 2, 4, 5, 6, 8, 9, 10}",
-                                       rmin=(2.5,), rmax=(17.5,))
+    # separation weighting: counts times a power law of the separation (two resolutions, two exponents)
+    F["rweight_neg"] = sky.SkyConfig(nref=2, nunk=2, zcells="{2, 4}", weights="{1, 2}", slots="{0, 1, 3, 4, 6, 8, 9}", rmin=(2.5, 7.5), rmax=(12.5, 22.5),
+                                     rweight=-0.8, resolution=50)
+    F["rweight_pos"] = sky.SkyConfig(nref=2, nunk=2, zcells="{2}", weights="{1}", rmin=(2.5,), rmax=(22.5,), rweight=1.0, resolution=7)
+    F["three_centres"] = sky.SkyConfig(nref=3, nunk=3, zcells="{2}", weights="{1}", centres=(1, 5, 9),
+                                       slots=("{0, 1, 4, 6, 9, 10}" if quick else "{0, 1, 2, 4, 5, 6, 8, 9, 10}"), rmin=(2.5,), rmax=(17.5,))
     if not quick:
         F["angular_big"] = sky.SkyConfig(nref=3, nunk=3, zcells="{2, 4}", weights="{1}", rmin=(2.5,), rmax=(12.5,))
         F["comoving"] = sky.SkyConfig(nref=3, nunk=2, zcells="{2, 4}", weights="{1}", unit="Mpc/h", edges=(0.3, 0.6, 0.9), rmin=(30.0,), rmax=(150.0,))
@@ -94,6 +99,25 @@ def compare_counts(ctx, prop, fam, sc, exp, obs, emb, extra_key=""):
     return ok
 
 
+def compare_weighted(ctx, fam, sc, exp, obs, emb):
+    """separation weighting: every pair contributes in proportion to the power law at the
+    logarithmic centre of its fine separation bin (floats: 1e-9 relative)."""
+    nb, nc = sc.nb, len(sc.centres)
+    for s in range(len(sc.rmin)):
+        for b in range(nb):
+            f = sky.separation_weights(sc, s, b)
+            for i in range(nc):
+                for j in range(nc):
+                    e = sum(exp["bydist"][b][i][j][d - 1] * f[d] for d in range(1, sc.max_d + 1))
+                    o = obs["cross"][s][b][i][j]
+                    if abs(o - e) > 1e-9 * max(abs(e), 1e-12):
+                        ctx.violation(f"C01|crosscorrelate|{fam}|separation_weighted_count_differs",
+                                      dict(family=fam, embedding=str(emb), scale=s, bin=b, patch_pair=[i, j], expected=e, observed=o,
+                                           rweight=sc.rweight, resolution=sc.resolution, ref=[dict(o_) for o_ in exp["ref"]], unk=[dict(o_) for o_ in exp["unk"]]))
+                        return False
+    return True
+
+
 def interesting(exp):
     cross = exp["cross"]
     nz = sum(1 for s in cross for b in s for i, row in enumerate(b) for j, v in enumerate(row) if v and i != j)
@@ -119,7 +143,7 @@ def run(ctx) -> None:
     pair_iteration(ctx)
     F = families(quick)
     embs = ["equator", "ra_wrap", "meridian_pole", "tilted"] if quick else list(sky.EMBEDDINGS)
-    nreal = 10 if quick else 120
+    nreal = 8 if quick else 120
     with scratch("c01_") as root:
         n = 0
         for fam, sc in F.items():
@@ -132,12 +156,15 @@ def run(ctx) -> None:
                 emb = embs[n % len(embs)]
                 n += 1
                 try:
-                    obs = sky.realise(sc, exp, root / f"s{n % 8}", emb, want=("cross", "auto"))
+                    obs = sky.realise(sc, exp, root / f"s{n % 8}", emb, want=("cross",) if sc.rweight is not None else ("cross", "auto"))
                 except Exception as exc:  # noqa: BLE001
                     ctx.violation(f"C01|measure|{fam}|raises_{type(exc).__name__}", dict(family=fam, error=repr(exc)[:300], ref=[dict(o) for o in exp["ref"]]))
                     continue
                 ctx.evaluated(1, (fam, emb, repr(exp["ref"]), repr(exp["unk"])) if interesting(exp) > 0 else None)
                 ctx.validated(1)
+                if sc.rweight is not None:
+                    compare_weighted(ctx, fam, sc, exp, obs, emb)
+                    continue
                 compare_counts(ctx, "C01", fam, sc, exp, obs, emb)
                 if len(ctx.samples) < 5 and interesting(exp) > 3:
                     ctx.sample(dict(family=fam, embedding=emb, ref=[dict(o) for o in exp["ref"]], unk=[dict(o) for o in exp["unk"]],
